@@ -125,3 +125,89 @@ func init() {
 	}
 	_ = tls.VersionTLS13
 }
+
+// ---- the real ClientPeerIDAuth against a scripted server ------------------------------------
+func init() {
+	handshake.VerifE2EClient = func(priv crypto.PrivKey, host string,
+		respond func(reqHdr string) (status int, www, info string)) (pid peer.ID, err error) {
+		ts := httptest.NewServer(http.HandlerFunc(func(w http.ResponseWriter, r *http.Request) {
+			status, www, info := respond(r.Header.Get("Authorization"))
+			if www != "" {
+				w.Header().Set("WWW-Authenticate", www)
+			}
+			if info != "" {
+				w.Header().Set("Authentication-Info", info)
+			}
+			w.WriteHeader(status)
+		}))
+		defer ts.Close()
+		auth := httppeeridauth.ClientPeerIDAuth{PrivKey: priv}
+		req, err := http.NewRequest("GET", ts.URL, nil)
+		if err != nil {
+			return "", err
+		}
+		req.Host = host
+		p, resp, err := auth.AuthenticatedDo(ts.Client(), req)
+		if resp != nil && resp.Body != nil {
+			io.Copy(io.Discard, resp.Body)
+			resp.Body.Close()
+		}
+		return p, err
+	}
+}
+
+// ---- the real ClientPeerIDAuth against the real ServerPeerIDAuth ------------------------------
+func init() {
+	handshake.VerifE2EPair = func(serverKey crypto.PrivKey, mac []byte, ttl time.Duration, clientKey crypto.PrivKey,
+		host string, phases int, before func(phase int, reqHdr string), after func(rec handshake.VerifE2ERecord)) (ids []peer.ID, errs []error) {
+		var called bool
+		var pid peer.ID
+		auth := &httppeeridauth.ServerPeerIDAuth{
+			PrivKey: serverKey, TokenTTL: ttl, NoTLS: true, HmacKey: append([]byte{}, mac...),
+			ValidHostnameFn: func(h string) bool { return h == host },
+			Next: func(p peer.ID, w http.ResponseWriter, r *http.Request) {
+				called, pid = true, p
+				w.WriteHeader(http.StatusOK)
+			},
+		}
+		phase := 0
+		ts := httptest.NewServer(http.HandlerFunc(func(w http.ResponseWriter, r *http.Request) {
+			hdr := r.Header.Get("Authorization")
+			before(phase, hdr)
+			called, pid = false, ""
+			rec := httptest.NewRecorder()
+			auth.ServeHTTP(rec, r)
+			for k, v := range rec.Header() {
+				w.Header()[k] = v
+			}
+			w.WriteHeader(rec.Code)
+			resp := ""
+			for _, n := range []string{"WWW-Authenticate", "Authentication-Info"} {
+				if v := rec.Header().Get(n); v != "" {
+					resp = v
+				}
+			}
+			after(handshake.VerifE2ERecord{ReqHdr: hdr, Status: rec.Code, Called: called, Pid: pid, RespHdr: resp})
+		}))
+		defer ts.Close()
+		client := httppeeridauth.ClientPeerIDAuth{PrivKey: clientKey}
+		for phase = 0; phase < phases; phase++ {
+			before(phase, "")
+			req, err := http.NewRequest("GET", ts.URL, nil)
+			if err != nil {
+				errs = append(errs, err)
+				continue
+			}
+			req.Host = host
+			req.GetBody = func() (io.ReadCloser, error) { return http.NoBody, nil }
+			p, resp, err := client.AuthenticatedDo(ts.Client(), req)
+			if resp != nil && resp.Body != nil {
+				io.Copy(io.Discard, resp.Body)
+				resp.Body.Close()
+			}
+			ids = append(ids, p)
+			errs = append(errs, err)
+		}
+		return
+	}
+}
